@@ -39,6 +39,7 @@ class Ctx:
         self.digest = None
         self.inconclusive = []
         self.selftest = None
+        self.undecided = []
         self.inline_set = ()      # helpers inlined in this run's view of the program (rules/inline.py)
         self.fact_paths = {}
 
@@ -85,6 +86,12 @@ class Ctx:
         else:
             self.fail(clause, key, detail, where, fn=fn)
         return cond
+
+    def unread(self, clause, key, detail, where="", fn=None):
+        """The code under this clause is written in a form the rule cannot read as either satisfying or violating
+        it.  Nothing is claimed for that instance: it is listed as undecided in the evidence and on stdout, and the
+        verdict is formed from the instances that could be read."""
+        self.undecided.append({"clause": clause, "key": "%s|%s" % (clause, key), "detail": detail, "where": where, "function": fn})
 
     def need(self, cond, reason):
         """Fail closed: a missing anchor/role/count makes the run inconclusive."""
@@ -144,6 +151,7 @@ class Ctx:
             "clauses": sorted({o[0] for o in self.obls}),
             "known_findings_reported": [l for l in lines],
             "notes": self.notes,
+            "undecided": self.undecided,
         }
         if self.selftest is not None:
             cov["selftest"] = self.selftest
@@ -164,6 +172,8 @@ class Ctx:
             json.dump(ev, fh, indent=1)
         for l in lines:
             print(l)
+        for u in self.undecided:
+            print("UNDECIDED property=%s %s  %s  %s" % (self.prop, u["where"], u["key"], u["detail"]))
         print("[%s] tier=%s configs=%s obligations=%d discharged=%d nontrivial=%d wall=%.1fs" % (self.prop, self.tier, ",".join(self.configs), n_obl, n_ok, len(self.nontrivial), wall))
         for k, v in sorted(self.counts.items()):
             print("    count %-40s %s" % (k, v))
@@ -242,6 +252,7 @@ def _helper_views(prop, tier, fn, level, ctx0):
     rest = [k for k in sorted(cands) if k not in rel]
     order = rel + rest
     cur, cur_score = set(), _score(ctx0)
+    best_ctx = None
     tried = set()
     improved = True
     while improved and time.time() - t0 < budget:
@@ -262,12 +273,16 @@ def _helper_views(prop, tier, fn, level, ctx0):
                 return c
             if sc < cur_score and (best is None or sc < best[0]):
                 best = (sc, h)
+                best_ctx = c
                 if h in rel:
                     break          # take the first improving relevant helper at once
         if best:
             cur.add(best[1])
             cur_score = best[0]
             improved = True
+    if best_ctx is not None and not best_ctx.inconclusive:
+        best_ctx.partial_view = True
+        return best_ctx
     return None
 
 
@@ -276,7 +291,13 @@ def run_check(prop, tier, fn, level="other"):
     ctx, ok = _attempt(prop, tier, fn, level, forced)
     if (ctx.viol or ctx.inconclusive) and os.environ.get("JL_NO_INLINE") != "1":
         alt = _helper_views(prop, tier, fn, level, ctx)
-        if alt is not None:
+        if alt is not None and getattr(alt, "partial_view", False):
+            # no view discharges everything: report what is left in the view that discharges most (it is the same
+            # program; fewer, more specific complaints)
+            alt.notes.append("reported on the view of the program with the private helper functions %s inlined at their call sites; the program as written left %d clause instance(s) undecided, this view %d" % (", ".join(alt.inline_set), _score(ctx), _score(alt)))
+            alt.t0 = ctx.t0
+            ctx, ok = alt, True
+        elif alt is not None:
             alt.notes.append("decided on a behaviour-preserving view of the program: private helper functions inlined at their call sites: %s (the program as written left %d clause instance(s) undecided)" % (", ".join(alt.inline_set), _score(ctx)))
             alt.t0 = ctx.t0
             ctx, ok = alt, True
